@@ -1,6 +1,8 @@
 import SJ.Proofs.Machine
 import SJ.Proofs.Utf8Machine
 import SJ.Proofs.Utf8Value
+import SJ.Proofs.NumFuel
+import SJ.Proofs.Sound.Num
 /-!
 # C14 — hostile input cannot crash, overflow the stack or corrupt memory (the logical part)
 
@@ -221,5 +223,75 @@ example : feed ⟨{}, .str, .value⟩ init 0 [0x5b, 0x22, 0xc3, 0xa9, 0xf0, 0x9f
 example : Spec.Utf8.validUtf8 [0xc3, 0xa9, 0xf0, 0x9f, 0x98, 0x80] = true :=
   c14_utf8_at_closing_quote ⟨{}, .str, .value⟩ [0x5b, 0x22, 0xc3, 0xa9, 0xf0, 0x9f, 0x98, 0x80] [0x78]
     (by decide +kernel) _ 8 rfl _ rfl rfl
+/-! ## The number conversion never runs out of fuel
+
+`f64_from_parts` loops (`f /= 1e308; exponent += 308`); the model transcribes the loop with explicit
+fuel `|exponent| / 308 + 3` (`308` = `Gen.fromPartsStep`, re-extracted) and an `outOfFuel` result that `numValue` would report as
+`NumberOutOfRange`. It is unreachable. -/
+
+/-- **C14 (fuel).** For all parts the machine's scanner can produce (`PartsWF`: ASCII digits, integer
+    part `0` or without leading zero, non-empty fraction / exponent digits when present), the default
+    conversion never returns `outOfFuel`. -/
+theorem c14_no_fuel (p : Model.Num.Parts) (hwf : SJ.Proofs.NumLink.PartsWF p) :
+    Model.Num.convertDefault p ≠ .outOfFuel :=
+  SJ.Proofs.NumLink.convertDefault_ne_outOfFuel p hwf
+
+/-- the `f64_from_parts` transcription itself, for every significand and every exponent -/
+theorem c14_no_fuel_f64_from_parts (positive : Bool) (s : Nat) (e : Int) :
+    Model.Num.f64FromParts positive s e ≠ .outOfFuel :=
+  SJ.Proofs.NumLink.f64FromParts_ne_outOfFuel positive s e
+
+/-- the `float_roundtrip` conversion has no fuelled loop at all -/
+theorem c14_no_fuel_roundtrip (p : Model.Num.Parts) : Model.Num.convertRoundtrip p ≠ .outOfFuel := by
+  have hex : ∀ a b c, Model.Num.exponentOverflow a b c ≠ .outOfFuel := by
+    intro a b c; unfold Model.Num.exponentOverflow; split <;> (intro h; cases h)
+  have hconv : Model.Num.convertRoundtrip.conv p ≠ .outOfFuel := by
+    unfold Model.Num.convertRoundtrip.conv
+    cases Model.Num.exact p with
+    | zero => intro h; cases h
+    | tiny => intro h; cases h
+    | huge => intro h; cases h
+    | rat n d =>
+      simp only
+      cases (if d == 0 then none else Spec.Ieee.roundNE64 p.neg n d) <;> (intro h; cases h)
+  unfold Model.Num.convertRoundtrip
+  cases hi : Model.Num.intClass p with
+  | some r =>
+    simp only
+    intro h; subst h
+    simp only [Model.Num.intClass] at hi
+    repeat' split at hi
+    all_goals simp at hi
+  | none =>
+    simp only
+    split
+    · split
+      · exact hex _ _ _
+      · exact hconv
+    · exact hconv
+
+/-- **C14 (fuel), at the machine.** Whenever the machine ends a number (`endNumber` → `numValue`) in a
+    state satisfying the scanner invariant of the soundness proof (`NumInv`, preserved by every step:
+    `Proofs.Sound.stepNum_next`) in a phase where a number may end, neither conversion is out of fuel:
+    the `outOfFuel` arm of `numValue` is dead code. -/
+theorem c14_no_fuel_machine (n : NumSt) (hi : SJ.Proofs.Sound.NumInv n)
+    (hf : SJ.Proofs.Sound.FinalPhase n.phase) :
+    Model.Num.convertDefault n.parts ≠ .outOfFuel ∧ Model.Num.convertRoundtrip n.parts ≠ .outOfFuel := by
+  obtain ⟨p, hwf, _, hp⟩ := SJ.Proofs.Sound.numInv_final n hi hf
+  rw [← hp]
+  exact ⟨c14_no_fuel _ (SJ.Proofs.NumLinkParser.partsOf_wf p hwf), c14_no_fuel_roundtrip _⟩
+
+/-- every RFC 8259 number literal, as scanned -/
+theorem c14_no_fuel_literal (p : Spec.Grammar.NumParts) (hwf : p.WF = true) :
+    Model.Num.convertDefault (Spec.Canon.partsOf p) ≠ .outOfFuel :=
+  c14_no_fuel _ (SJ.Proofs.NumLinkParser.partsOf_wf p hwf)
+
+/-- non-vacuity: `1e-99999` gets fuel 327 and ends in `+0.0` in the third round (`f` has become `0`);
+    two rounds would not have been enough -/
+example : Model.Num.f64FromParts true 1 (-99999) = .ok 0 := by decide +kernel
+example : Model.Num.f64FromPartsLoop 2 (Spec.Ieee.F64.ofU64 1) (-99999) = .outOfFuel := by decide +kernel
+example : SJ.Proofs.NumLink.PartsWF ⟨false, [0x31], none, some (true, [0x39, 0x39, 0x39, 0x39, 0x39]),
+    [0x31, 0x65, 0x2d, 0x39, 0x39, 0x39, 0x39, 0x39]⟩ :=
+  SJ.Proofs.NumLinkParser.partsOf_wf ⟨false, [0x31], [], [0x65, 0x2d, 0x39, 0x39, 0x39, 0x39, 0x39]⟩ (by decide)
 
 end SJ.Props.C14
